@@ -17,6 +17,7 @@ func init() {
 			"Nested buckets are reported with a nil value: every return of a value taken from a raw cursor step is guarded by a bucket-bit test of that step's own flags (R5). " +
 			"NOT decided: that First/Next/Prev/Seek agree with a sorted list in general; termination beyond the exhaustion discipline (no termination prover is available). Round 3: a value truncated to an on-disk field width (uint16 element index) never indexes or sizes an in-memory collection — a materialised node holds more than 65535 inodes before it is split. Round 4: First, Last and Seek restart from the bucket's current root on every path.",
 		Run: func(c *Ctx) {
+			ruleDescentComparesEveryLevel(c, "C05.R8")
 			debugNarrowing(c)
 			ruleAbsolutePositioningRestarts(c, "C05.R7")
 			ruleNarrowingConfined(c, "C05.R6") // "visits every key exactly once": a cursor over a materialised node addresses element i, not i mod 65536
